@@ -12,6 +12,7 @@ Before the repair of the reader (`fix: DRCP reader rejected steps that the DRCP 
 statement was false; `old_reader_rejected` records the four shapes that failed, as tokens.
 -/
 import Pumpkin.Model.Drcp
+import Pumpkin.Model.Lits
 
 namespace Pumpkin.C19
 open Pumpkin.Drcp
@@ -45,5 +46,24 @@ example : (Step.inference 3 [-5, 2147483647] (some (-1)) (some 20) (some "linear
   · intro p hp; simp at hp; rcases hp with rfl | rfl <;> decide
   · intro p hp; cases hp; decide
   · intro t ht; cases ht; decide
+
+/-! ### the literal definition file (`.lits`), byte level -/
+
+/-- A definition line written by `LiteralDefinitions::write` — any non-zero `u32` code, at least one
+atomic constraint, names of the documented shape `[A-Za-z_][A-Za-z0-9_]*`, any comparison, any `i64`
+value, either Boolean value — is read back unchanged by the model of the nom grammar. -/
+theorem lits_line_read_back (code : Nat) (a : Pumpkin.Lits.Atomic) (as : List Pumpkin.Lits.Atomic)
+    (hc : 1 ≤ code ∧ code ≤ 4294967295) (hw : ∀ x ∈ a :: as, Pumpkin.Lits.WfAtomic x) :
+    Pumpkin.Lits.parseDef (Pumpkin.Lits.renderDef code (a :: as)) = some (code, a :: as) :=
+  Pumpkin.Lits.parseDef_renderDef code a as hc hw
+
+/-- … and so is a whole file. -/
+theorem lits_file_read_back (defs : List (Nat × List Pumpkin.Lits.Atomic))
+    (hw : ∀ d ∈ defs, Pumpkin.Lits.WfDef d) :
+    Pumpkin.Lits.parseFile (Pumpkin.Lits.renderFile defs) = some defs :=
+  Pumpkin.Lits.parseFile_renderFile defs hw
+
+/-- a name starting with `_` is well formed (the shape a seeded change of the reader rejected) -/
+example : Pumpkin.Lits.WfName [95, 98, 48] := ⟨95, [98, 48], rfl, by decide, by decide⟩
 
 end Pumpkin.C19
